@@ -13,6 +13,9 @@
 //!   canon                          canonical_raw on a schema with repeated scalars (empty packed chunks)
 //!   sel / cqc / tqc / implied      selection function and certificate verification on extreme, well-signed values
 //!   votes                          sequences of signed commit / timeout votes into a real replica vs the cache model
+//!   bss                            BlockStoreState::{contains, head, verify, next} on boundary states
+//!   node                           a real node instance (network + engine, block fetcher running) fed well-formed but absurd
+//!                                  messages of every gossip RPC and of the consensus RPC by a raw peer, then probed for liveness
 //!   replica                        extreme signed messages into a real replica (monitor only)
 use std::{
     alloc::{GlobalAlloc, Layout, System},
@@ -52,6 +55,7 @@ fn install_hook() {
                 eprintln!("harness panic (outside catch): {site}");
             }
             FIRST_PANIC.with(|p| { let mut p = p.borrow_mut(); if p.is_none() { *p = Some(site.clone()); } });
+            if let Ok(mut g) = ANY_PANIC.lock() { if g.is_none() { *g = Some(site.clone()); } }
             vharness::LAST_PANIC.with(|p| *p.borrow_mut() = Some(site));
         }));
     });
@@ -1805,6 +1809,479 @@ impl C10 {
     }
 }
 
+
+// ------------------------------------------------------------------------------------------------ a real node under absurd RPC messages
+
+/// any panic on any thread (the node's engine may use blocking threads), first one wins
+static ANY_PANIC: Mutex<Option<String>> = Mutex::new(None);
+
+mod nodeop {
+    use super::*;
+    use zksync_consensus_engine::{testonly::TestEngine, BlockStoreState, Last, Transaction};
+    use zksync_consensus_network::{testonly as nt, verif::{handshake as hk, mux as vmux, wire}, Config};
+
+    pub const MAX_BLOCK: usize = 64 * 1024;
+    pub const MAX_TX: usize = 4 * 1024;
+
+    /// how the peer answers the node's `get_block` calls
+    #[derive(Clone, Debug)]
+    pub enum Serve { Right, None_, Wrong, Extreme, Oversized, Garbage, Hang, Empty }
+
+    pub struct Peer {
+        pub accept: HashMap<&'static str, vmux::Queue>,
+        pub connect: HashMap<&'static str, vmux::Queue>,
+        pub close: Option<tokio::sync::oneshot::Sender<()>>,
+        pub serve: Arc<Mutex<Serve>>,
+        pub served: Arc<Mutex<Vec<u64>>>,
+    }
+
+    pub async fn with_timeout<T>(ms: u64, f: impl std::future::Future<Output = T>) -> Option<T> {
+        tokio::time::timeout(std::time::Duration::from_millis(ms), f).await.ok()
+    }
+
+    fn vcfg() -> vmux::Config {
+        let c = entry::MuxCfg::rpc();
+        vmux::Config { read_frame_size: c.read_frame_size, read_buffer_size: c.read_buffer_size, read_frame_count: c.read_frame_count, write_frame_size: c.write_frame_size }
+    }
+
+    async fn read_frame(ctx: &ctx::Ctx, r: &mut vmux::ReadHalf) -> Option<Vec<u8>> {
+        let l = r.read_exact(ctx, 4).await.ok()?;
+        if l.len() < 4 { return None; }
+        let n = u32::from_le_bytes(l[..4].try_into().unwrap()) as usize;
+        if n > 1 << 24 { return None; }
+        let b = r.read_exact(ctx, n).await.ok()?;
+        (b.len() == n).then_some(b)
+    }
+
+    /// one RPC call made by the peer: `Some(response body)` if the node answered
+    pub async fn call(ctx: &ctx::Ctx, q: &vmux::Queue, framed_req: &[u8]) -> Option<Vec<u8>> {
+        let mut st = with_timeout(2000, q.open(ctx)).await?.ok()?;
+        with_timeout(2000, async {
+            st.write.write_all(ctx, framed_req).await.ok()?;
+            st.write.flush(ctx).await.ok()?;
+            Some(())
+        }).await??;
+        let vmux::Stream { mut read, write } = st;
+        drop(write);
+        with_timeout(2000, read_frame(ctx, &mut read)).await?
+    }
+
+    pub struct Blocks(pub Vec<validator::Block>);
+    impl Blocks {
+        pub fn get(&self, n: u64) -> Option<validator::Block> { self.0.iter().find(|b| b.number().0 == n).cloned() }
+    }
+
+    /// the peer's `get_block` server: answers every call of the node according to the current mode
+    async fn serve_loop(ctx: &ctx::Ctx, q: vmux::Queue, mode: Arc<Mutex<Serve>>, served: Arc<Mutex<Vec<u64>>>, blocks: Arc<Blocks>) {
+        loop {
+            let Ok(mut st) = q.open(ctx).await else { return };
+            let Some(req) = read_frame(ctx, &mut st.read).await else { continue };
+            let Ok(req) = nproto::gossip::GetBlockRequest::decode(req.as_slice()) else { continue };
+            let n = req.number.unwrap_or(0);
+            served.lock().unwrap().push(n);
+            let m = mode.lock().unwrap().clone();
+            let resp: Option<Vec<u8>> = match m {
+                Serve::Hang => { std::future::pending::<()>().await; None }
+                Serve::Right => Some(framed(&wire::rpc_get_block_resp(blocks.get(n)).encode())),
+                Serve::None_ => Some(framed(&wire::rpc_get_block_resp(None).encode())),
+                Serve::Wrong => Some(framed(&wire::rpc_get_block_resp(blocks.0.iter().find(|b| b.number().0 != n).cloned()).encode())),
+                Serve::Extreme => {
+                    // a block whose number is 2^64-1 / whose certificate is garbage
+                    let b = validator::Block::PreGenesis(validator::PreGenesisBlock {
+                        number: validator::BlockNumber(u64::MAX), payload: validator::Payload(vec![1, 2, 3]), justification: validator::Justification(vec![]) });
+                    Some(framed(&wire::rpc_get_block_resp(Some(b)).encode()))
+                }
+                Serve::Oversized => { let mut v = le32(1 << 30).to_vec(); v.extend_from_slice(&[0u8; 64]); Some(v) }
+                Serve::Garbage => Some(framed(&[0xff, 0xff, 0xff, 0x01])),
+                Serve::Empty => Some(vec![]),
+            };
+            if let Some(r) = resp {
+                let _ = st.write.write_all(ctx, &r).await;
+                let _ = st.write.flush(ctx).await;
+            }
+        }
+    }
+
+    /// full gossip connection of a fresh anonymous peer: preface, noise, handshake with a valid node key, mux
+    pub async fn connect_gossip<'env>(ctx: &'env ctx::Ctx, s: &scope::Scope<'env, anyhow::Error>, node: &Config, genesis: validator::GenesisHash,
+        rng: &mut StdRng, blocks: Arc<Blocks>) -> Result<Peer, String> {
+        let addr = *node.server_addr;
+        // the node binds its listener asynchronously after start
+        let mut stream = None;
+        for _ in 0..200 {
+            match with_timeout(3000, hk::Stream::connect(ctx, addr, hk::Endpoint::GossipNet)).await {
+                Some(Ok(st)) => { stream = Some(st); break; }
+                _ => tokio::time::sleep(std::time::Duration::from_millis(5)).await,
+            }
+        }
+        let mut stream = stream.ok_or("connect failed")?;
+        let me = nt::new_fullnode(rng, node);
+        with_timeout(3000, hk::gossip_outbound(ctx, &me, genesis, &mut stream, &node.gossip.key.public())).await.ok_or("handshake timeout")?.map_err(|e| e.1)?;
+        let mut accept = HashMap::new();
+        let mut connect = HashMap::new();
+        let (mut va, mut vc) = (vec![], vec![]);
+        for (name, id, inflight) in entry::all_rpc_capabilities() {
+            if name == "consensus" { continue; }
+            let (a, c) = (vmux::Queue::new(ctx, inflight), vmux::Queue::new(ctx, inflight));
+            va.push((id, a.clone()));
+            vc.push((id, c.clone()));
+            accept.insert(name, a);
+            connect.insert(name, c);
+        }
+        let mux = vmux::Mux::new(vcfg(), &va, &vc);
+        let (close, close_rx) = tokio::sync::oneshot::channel::<()>();
+        let serve = Arc::new(Mutex::new(Serve::Hang));
+        let served = Arc::new(Mutex::new(vec![]));
+        let gb = connect["get_block"].clone();
+        let (m2, s2) = (serve.clone(), served.clone());
+        s.spawn_bg(async move {
+            let _: Result<(), ctx::Canceled> = scope::run!(ctx, |ctx, s| async move {
+                s.spawn_bg(async move { let _ = mux.run(ctx, stream).await; Ok(()) });
+                s.spawn_bg(async move { serve_loop(ctx, gb, m2, s2, blocks).await; Ok(()) });
+                let _ = ctx.wait(close_rx).await;
+                Ok(())
+            }).await;
+            Ok(())
+        });
+        Ok(Peer { accept, connect, close: Some(close), serve, served })
+    }
+
+    pub fn state_of(v: &Value, qc: &v2::CommitQC) -> BlockStoreState {
+        let last = match (v.get("pre").and_then(|x| x.as_u64()), v.get("fin").and_then(|x| x.as_u64())) {
+            (Some(n), _) => Some(Last::PreGenesis(validator::BlockNumber(n))),
+            (_, Some(n)) => { let mut q = qc.clone(); q.message.proposal.number = validator::BlockNumber(n); Some(Last::FinalV2(q)) }
+            _ => None,
+        };
+        BlockStoreState { first: validator::BlockNumber(v["first"].as_u64().unwrap_or(0)), last }
+    }
+
+    pub fn tx(len: usize) -> Transaction { Transaction(vec![0x42; len]) }
+    pub async fn engine(ctx: &ctx::Ctx, setup: &validator::testonly::Setup, first: u64) -> TestEngine {
+        TestEngine::new_with_first_block(ctx, setup, validator::BlockNumber(first)).await
+    }
+    pub fn new_config(rng: &mut StdRng, setup: &validator::testonly::Setup) -> Config {
+        let mut cfg = nt::new_configs(rng, setup, 0)[0].clone();
+        cfg.rpc.push_block_store_state_rate = limiter::Rate::INF;
+        cfg.rpc.get_block_rate = limiter::Rate::INF;
+        cfg.rpc.push_validator_addrs_rate = limiter::Rate::INF;
+        cfg.rpc.push_tx_rate = limiter::Rate::INF;
+        cfg.rpc.consensus_rate = limiter::Rate::INF;
+        cfg.rpc.get_block_timeout = None;
+        cfg.max_block_size = MAX_BLOCK;
+        cfg.max_tx_size = MAX_TX;
+        cfg.max_block_queue_size = 3;
+        cfg
+    }
+    pub fn instance(cfg: Config, m: Arc<zksync_consensus_engine::EngineManager>) -> (nt::Instance, nt::InstanceRunner) {
+        let (send, recv) = zksync_consensus_bft::create_input_channel();
+        nt::Instance::new_with_channel(cfg, m, send, recv)
+    }
+    pub type Stream = hk::Stream;
+    pub async fn connect_consensus<'env>(ctx: &'env ctx::Ctx, s: &scope::Scope<'env, anyhow::Error>, node: &Config, genesis: validator::GenesisHash,
+        me: &validator::SecretKey) -> Result<(vmux::Queue, tokio::sync::oneshot::Sender<()>), String> {
+        let addr = *node.server_addr;
+        let mut stream = with_timeout(3000, hk::Stream::connect(ctx, addr, hk::Endpoint::ConsensusNet)).await.ok_or("connect timeout")?.map_err(|e| format!("{e:?}"))?;
+        let peer = node.validator_key.as_ref().unwrap().public();
+        with_timeout(3000, hk::consensus_outbound(ctx, me, genesis, &mut stream, &peer)).await.ok_or("handshake timeout")?.map_err(|e| e.1)?;
+        let (name, id, inflight) = entry::all_rpc_capabilities().into_iter().find(|c| c.0 == "consensus").unwrap();
+        let _ = name;
+        let (a, c) = (vmux::Queue::new(ctx, inflight), vmux::Queue::new(ctx, inflight));
+        let mux = vmux::Mux::new(vcfg(), &[(id, a.clone())], &[(id, c)]);
+        let (close, close_rx) = tokio::sync::oneshot::channel::<()>();
+        s.spawn_bg(async move {
+            let _: Result<(), ctx::Canceled> = scope::run!(ctx, |ctx, s| async move {
+                s.spawn_bg(async move { let _ = mux.run(ctx, stream).await; Ok(()) });
+                let _ = ctx.wait(close_rx).await;
+                Ok(())
+            }).await;
+            Ok(())
+        });
+        Ok((a, close))
+    }
+    pub fn req_bss(st: BlockStoreState) -> Vec<u8> { framed(&wire::rpc_push_block_store_state_req(st).encode()) }
+    pub fn req_get(n: u64) -> Vec<u8> { framed(&wire::rpc_get_block_req(validator::BlockNumber(n)).encode()) }
+    pub fn req_tx(t: Transaction) -> Vec<u8> { framed(&wire::rpc_push_tx_req(t).encode()) }
+    pub fn req_addrs(a: Vec<validator::Signed<validator::NetAddress>>) -> Vec<u8> { framed(&wire::rpc_push_validator_addrs_req(a).encode()) }
+    pub fn req_ping(d: [u8; 32]) -> Vec<u8> { framed(&wire::rpc_ping_req(d).encode()) }
+    pub fn req_consensus(m: validator::Signed<validator::ConsensusMsg>) -> Vec<u8> { framed(&wire::rpc_consensus_req(m).encode()) }
+}
+
+fn gen_store_and_node(rng: &mut StdRng, n: usize, ops: &mut Vec<Value>) {
+    // BlockStoreState::{contains, head, verify, next} on boundary states
+    let pts: Vec<u64> = vec![0, 1, 2, 5, u64::MAX - 2, u64::MAX - 1, u64::MAX, 1 << 63];
+    for first in &pts {
+        for last in pts.iter().map(|x| Some(*x)).chain([None]) {
+            for nn in [0u64, 1, 4, 5, 6, u64::MAX - 1, u64::MAX] {
+                let fin = rng.gen_bool(0.3);
+                ops.push(json!({"op": "bss", "first": first, "last": last, "fin": fin, "n": nn}));
+            }
+        }
+    }
+    for _ in 0..n {
+        let a: u64 = if rng.gen() { rng.gen_range(0..10) } else { u64::MAX - rng.gen_range(0..10) };
+        let b: Option<u64> = if rng.gen_bool(0.1) { None } else if rng.gen() { Some(rng.gen_range(0..10)) } else { Some(u64::MAX - rng.gen_range(0..10)) };
+        let c: u64 = if rng.gen() { rng.gen_range(0..10) } else { u64::MAX - rng.gen_range(0..10) };
+        ops.push(json!({"op": "bss", "first": a, "last": b, "fin": rng.gen_bool(0.3), "n": c}));
+    }
+    // a real node under absurd but well-formed RPC messages
+    let ext: Vec<u64> = vec![0, 1, u64::MAX - 1, u64::MAX];
+    let serves = ["right", "none", "wrong", "extreme", "oversized", "garbage", "hang", "empty"];
+    let mut cases: Vec<(u64, u64, Vec<Value>)> = vec![];
+    // directed: every (first, last kind, last) boundary combination once, followed by a pending fetch
+    for fb in [0u64, 3] {
+        let fp = if fb == 0 { 0 } else { 1 };
+        let mut nums = ext.clone();
+        nums.extend([fp, fb.saturating_sub(1), fb, fb + 1]);
+        nums.sort(); nums.dedup();
+        for kind in ["pre", "fin"] {
+            let mut steps = vec![];
+            for &l in &nums {
+                for &f in &[0u64, fp, fb, l, l.wrapping_add(1), u64::MAX] {
+                    let mut st = json!({"first": f});
+                    st[kind] = json!(l);
+                    steps.push(json!({"k": "bss", "state": st, "serve": serves[(l as usize ^ f as usize) % serves.len()]}));
+                }
+            }
+            steps.push(json!({"k": "bss", "state": {"first": u64::MAX}, "serve": "hang"}));
+            // each case = one node; keep cases short
+            for chunk in steps.chunks(6) { cases.push((fb, fp, chunk.to_vec())); }
+        }
+    }
+    for _ in 0..n {
+        let fb = *[0u64, 1, 3].choose(rng).unwrap();
+        let fp = if fb == 0 { 0 } else { rng.gen_range(0..=fb) };
+        let num = |rng: &mut StdRng| -> u64 { match rng.gen_range(0..6) { 0 => fp, 1 => fb, 2 => fb + 1, 3 => fb.saturating_sub(1), _ => *ext.choose(rng).unwrap() } };
+        let mut steps = vec![];
+        for _ in 0..rng.gen_range(1..6) {
+            match rng.gen_range(0..10) {
+                0..=3 => {
+                    let mut st = json!({"first": num(rng)});
+                    match rng.gen_range(0..5) { 0 => {}, 1 | 2 => { st["pre"] = json!(num(rng)); }, _ => { st["fin"] = json!(num(rng)); } }
+                    steps.push(json!({"k": "bss", "state": st, "serve": serves.choose(rng).unwrap()}));
+                }
+                4 => steps.push(json!({"k": "get", "n": num(rng)})),
+                5 | 6 => {
+                    let addrs: Vec<Value> = (0..rng.gen_range(0..4)).map(|_| json!({
+                        "who": *["v0", "v0", "v1", "unknown"].choose(rng).unwrap(), "bad_sig": rng.gen_bool(0.15),
+                        "version": *ext.choose(rng).unwrap(),
+                        "secs": *[0i64, 1, i64::MAX, i64::MIN, 253_402_300_800, -377_705_116_801].choose(rng).unwrap(),
+                        "nanos": *[0i32, 999_999_999, -1].choose(rng).unwrap(), "v6": rng.gen::<bool>(), "port": *[0u16, 1, u16::MAX].choose(rng).unwrap()})).collect();
+                    steps.push(json!({"k": "addrs", "addrs": addrs}));
+                }
+                7 => steps.push(json!({"k": "tx", "len": *[0usize, 1, 4096, 4097, 100_000].choose(rng).unwrap()})),
+                8 => steps.push(json!({"k": "ping"})),
+                _ => steps.push(json!({"k": "consensus", "kind": *["commit", "timeout", "newview", "proposal"].choose(rng).unwrap(),
+                        "view": *ext.choose(rng).unwrap(), "num": *ext.choose(rng).unwrap(), "bad_sig": rng.gen_bool(0.2)})),
+            }
+        }
+        cases.push((fb, fp, steps));
+    }
+    for (i, (fb, fp, steps)) in cases.into_iter().enumerate() {
+        ops.push(json!({"op": "node", "reset": true, "seed": 1000 + i as u64, "first_block": fb, "first_pre": fp, "steps": steps}));
+    }
+}
+
+impl C10 {
+    fn exec_bss(&mut self, op: &Value) -> Value {
+        use zksync_consensus_engine::{BlockStoreState, Last};
+        let first = op["first"].as_u64().unwrap_or(0);
+        let n = validator::BlockNumber(op["n"].as_u64().unwrap_or(0));
+        let last = op["last"].as_u64().map(|l| {
+            if op["fin"].as_bool().unwrap_or(false) {
+                let w = self.world();
+                let nval = w.n();
+                Last::FinalV2(w.cqc(&abs::acqc(nval, abs::avote(1, l, 3), &[])))
+            } else { Last::PreGenesis(validator::BlockNumber(l)) }
+        });
+        let s = BlockStoreState { first: validator::BlockNumber(first), last };
+        let contains = s.contains(n);
+        let next = match catch(|| s.next().0) { Ok(x) => json!(x), Err(_) => json!("panic") };
+        json!({"contains": contains, "head": s.head().0, "verify": if s.verify().is_ok() { "ok" } else { "err" }, "next": next})
+    }
+
+    fn exec_node(&mut self, op: &Value, out: &mut Out) -> Value {
+        use nodeop::*;
+        use zksync_consensus_engine::{BlockStoreState, Last};
+        *ANY_PANIC.lock().unwrap() = None;
+        let seed = op["seed"].as_u64().unwrap_or(0);
+        let fb = op["first_block"].as_u64().unwrap_or(0);
+        let fp = op["first_pre"].as_u64().unwrap_or(0);
+        let steps = op["steps"].as_array().cloned().unwrap_or_default();
+        let res: Result<Value, String> = self.rt.block_on(async {
+            let root = ctx::test_root(&ctx::RealClock);
+            let mut rng = <StdRng as rand::SeedableRng>::seed_from_u64(seed);
+            let mut spec = validator::testonly::SetupSpec::new(&mut rng, 2);
+            spec.first_block = validator::BlockNumber(fb);
+            spec.first_pregenesis_block = validator::BlockNumber(fp);
+            let mut setup = validator::testonly::Setup::from_spec(&mut rng, spec);
+            setup.push_blocks_v2(&mut rng, 6);
+            let blocks = Arc::new(Blocks(setup.blocks.clone()));
+            let genesis = setup.genesis_hash();
+            let some_qc = match setup.blocks.last().unwrap() { validator::Block::FinalV2(b) => b.justification.clone(), _ => unreachable!() };
+            let track = std::sync::atomic::AtomicUsize::new(0);
+            let (setup_r, steps_r, track_r, blocks_r, some_qc_r) = (&setup, &steps, &track, &blocks, &some_qc);
+            let r: Result<Value, anyhow::Error> = scope::run!(&root, |ctx, s| async move {
+                let (setup, steps, track, blocks, some_qc) = (setup_r, steps_r, track_r, blocks_r, some_qc_r);
+                let engine = engine(ctx, setup, fp).await;
+                let manager = engine.manager.clone();
+                s.spawn_bg(async { let _ = engine.runner.run(ctx).await; Ok(()) });
+                let cfg = new_config(&mut rng, setup);
+                let (mut inst, runner) = instance(cfg.clone(), manager.clone());
+                let node_done: Arc<Mutex<Option<String>>> = Arc::default();
+                let nd = node_done.clone();
+                s.spawn_bg(async move {
+                    let r = runner.run(ctx).await;
+                    *nd.lock().unwrap() = Some(format!("{r:?}"));
+                    Ok(())
+                });
+                // the consensus component's input queue: drain and acknowledge, as the replica's loop does
+                s.spawn_bg(async move {
+                    while let Ok(req) = inst.consensus_receiver.recv(ctx).await {
+                        let _ = (req.msg.msg.label(), req.msg.msg.view_number());
+                        let _ = req.ack.send(());
+                    }
+                    Ok(())
+                });
+                let mut log = vec![];
+                let mut peer: Option<Peer> = None;
+                track_start();
+                for st in steps {
+                    if peer.is_none() {
+                        match connect_gossip(ctx, s, &cfg, genesis, &mut rng, blocks.clone()).await {
+                            Ok(p) => peer = Some(p),
+                            Err(e) => { log.push(format!("connect: {e}")); break; }
+                        }
+                    }
+                    let p = peer.as_mut().unwrap();
+                    let k = st["k"].as_str().unwrap_or("");
+                    let outcome: String = match k {
+                        "bss" => {
+                            *p.serve.lock().unwrap() = match st["serve"].as_str().unwrap_or("hang") {
+                                "right" => Serve::Right, "none" => Serve::None_, "wrong" => Serve::Wrong, "extreme" => Serve::Extreme,
+                                "oversized" => Serve::Oversized, "garbage" => Serve::Garbage, "empty" => Serve::Empty, _ => Serve::Hang };
+                            let state = state_of(&st["state"], some_qc);
+                            let r = call(ctx, &p.accept["push_block_store_state"], &req_bss(state)).await;
+                            // give the fetcher the chance to act on the announcement (call us, get an answer)
+                            let before = p.served.lock().unwrap().len();
+                            for _ in 0..20 {
+                                tokio::time::sleep(std::time::Duration::from_millis(2)).await;
+                                if p.served.lock().unwrap().len() > before { tokio::time::sleep(std::time::Duration::from_millis(10)).await; break; }
+                            }
+                            format!("bss:{}:asked={:?}", if r.is_some() { "acked" } else { "no_response" }, &p.served.lock().unwrap()[before..])
+                        }
+                        "get" => {
+                            let r = call(ctx, &p.accept["get_block"], &req_get(st["n"].as_u64().unwrap_or(0))).await;
+                            format!("get:{}", match r { Some(b) => format!("resp{}", b.len()), None => "no_response".into() })
+                        }
+                        "tx" => {
+                            let r = call(ctx, &p.accept["push_tx"], &req_tx(tx(st["len"].as_u64().unwrap_or(0) as usize))).await;
+                            format!("tx:{}", if r.is_some() { "acked" } else { "no_response" })
+                        }
+                        "ping" => {
+                            let r = call(ctx, &p.accept["ping"], &req_ping([7u8; 32])).await;
+                            format!("ping:{}", if r.is_some() { "pong" } else { "no_response" })
+                        }
+                        "addrs" => {
+                            let mut v = vec![];
+                            for a in st["addrs"].as_array().cloned().unwrap_or_default() {
+                                let key: validator::SecretKey = match a["who"].as_str().unwrap_or("") { "v0" => setup.validator_keys[0].clone(), "v1" => setup.validator_keys[1].clone(), _ => rng.gen() };
+                                let t = zksync_protobuf::proto::std::Timestamp { seconds: a["secs"].as_i64(), nanos: a["nanos"].as_i64().map(|x| x as i32) };
+                                let Ok(ts) = time::Utc::read(&t) else { continue };
+                                let ip: std::net::IpAddr = if a["v6"].as_bool().unwrap_or(false) { std::net::Ipv6Addr::LOCALHOST.into() } else { std::net::Ipv4Addr::LOCALHOST.into() };
+                                let msg = validator::NetAddress { addr: std::net::SocketAddr::new(ip, a["port"].as_u64().unwrap_or(0) as u16), version: a["version"].as_u64().unwrap_or(0), timestamp: ts };
+                                let mut sg = key.sign_msg(msg);
+                                if a["bad_sig"].as_bool().unwrap_or(false) { sg.msg.version = sg.msg.version.wrapping_add(1); }
+                                v.push(sg);
+                            }
+                            let r = call(ctx, &p.accept["push_validator_addrs"], &req_addrs(v)).await;
+                            format!("addrs:{}", if r.is_some() { "acked" } else { "no_response" })
+                        }
+                        "consensus" => {
+                            let me = setup.validator_keys[1].clone();
+                            match connect_consensus(ctx, s, &cfg, genesis, &me).await {
+                                Err(e) => format!("consensus:connect:{e}"),
+                                Ok((q, close)) => {
+                                    let view = v2::View { genesis, epoch: validator::EpochNumber(0), number: validator::ViewNumber(st["view"].as_u64().unwrap_or(0)) };
+                                    let vote = v2::ReplicaCommit { view, proposal: v2::BlockHeader { number: validator::BlockNumber(st["num"].as_u64().unwrap_or(0)), payload: validator::Payload(vec![1]).hash() } };
+                                    let mut qc = some_qc.clone();
+                                    qc.message = vote.clone();
+                                    let m = match st["kind"].as_str().unwrap_or("") {
+                                        "commit" => v2::ChonkyMsg::ReplicaCommit(vote),
+                                        "timeout" => v2::ChonkyMsg::ReplicaTimeout(v2::ReplicaTimeout { view, high_vote: Some(vote), high_qc: Some(qc) }),
+                                        "proposal" => v2::ChonkyMsg::LeaderProposal(v2::LeaderProposal { proposal_payload: Some(validator::Payload(vec![0; 10])), justification: v2::ProposalJustification::Commit(qc) }),
+                                        _ => v2::ChonkyMsg::ReplicaNewView(v2::ReplicaNewView { justification: v2::ProposalJustification::Commit(qc) }),
+                                    };
+                                    let mut sg = me.sign_msg(validator::ConsensusMsg::V2(m));
+                                    if st["bad_sig"].as_bool().unwrap_or(false) { sg.sig = me.sign_msg(validator::ConsensusMsg::V2(v2::ChonkyMsg::ReplicaCommit(v2::ReplicaCommit { view, proposal: v2::BlockHeader { number: validator::BlockNumber(77), payload: validator::Payload(vec![2]).hash() } }))).sig; }
+                                    let r = call(ctx, &q, &req_consensus(sg)).await;
+                                    let _ = close.send(());
+                                    format!("consensus:{}", if r.is_some() { "acked" } else { "no_response" })
+                                }
+                            }
+                        }
+                        _ => "?".into(),
+                    };
+                    log.push(outcome);
+                    if ANY_PANIC.lock().unwrap().is_some() || node_done.lock().unwrap().is_some() { break; }
+                }
+                track.store(track_stop(), Ordering::Relaxed);
+                // the adversarial peer goes away; a fresh honest peer checks that the node still works
+                if let Some(mut p) = peer.take() { if let Some(c) = p.close.take() { let _ = c.send(()); } }
+                tokio::time::sleep(std::time::Duration::from_millis(5)).await;
+                let mut ping = false;
+                let mut fetched = false;
+                if let Ok(p) = connect_gossip(ctx, s, &cfg, genesis, &mut rng, blocks.clone()).await {
+                    *p.serve.lock().unwrap() = Serve::Right;
+                    let data = [9u8; 32];
+                    if let Some(b) = call(ctx, &p.accept["ping"], &req_ping(data)).await {
+                        ping = nproto::ping::PingResp::decode(b.as_slice()).map(|r| r.data == Some(data.to_vec())).unwrap_or(false);
+                    }
+                    let want = manager.queued().next();
+                    if blocks.get(want.0).is_some() {
+                        let honest = BlockStoreState { first: blocks.0[0].number(), last: Some(Last::from(blocks.0.last().unwrap())) };
+                        let _ = call(ctx, &p.accept["push_block_store_state"], &req_bss(honest)).await;
+                        fetched = with_timeout(5000, manager.wait_until_persisted(ctx, want)).await.map(|r| r.is_ok()).unwrap_or(false);
+                    } else {
+                        fetched = true;
+                    }
+                    log.push(format!("probe:asked={:?}", p.served.lock().unwrap()));
+                } else {
+                    log.push("probe:connect failed".into());
+                }
+                let done = node_done.lock().unwrap().clone();
+                Ok(json!({"ping": ping, "fetched": fetched, "_node": done, "_steps": log}))
+            }).await;
+            let peak = track.load(Ordering::Relaxed);
+            match r {
+                Ok(mut v) => { v["_peak"] = json!(peak); Ok(v) }
+                Err(e) => Err(format!("{e:#}")),
+            }
+        });
+        let panic = ANY_PANIC.lock().unwrap().take();
+        if let Some(site) = panic {
+            out.oracle_fail(&site, "a well-formed RPC message crashed a task of the node", op.clone());
+            return json!({"panic": site, "_res": format!("{res:?}")});
+        }
+        match res {
+            Ok(v) => {
+                let peak = v["_peak"].as_u64().unwrap_or(0) as usize;
+                // largest legitimate buffers: a block / consensus message (max_block_size + 100 kB), noise buffers, setup
+                if peak > nodeop::MAX_BLOCK + 400 * 1024 {
+                    out.oracle_fail("alloc:node", "a node task allocated far above its configured limits", json!({"op": op, "peak": peak}));
+                }
+                if v["ping"] != json!(true) || v["fetched"] != json!(true) {
+                    out.oracle_fail("node:not_live", "the node stopped serving / fetching after well-formed RPC messages", json!({"op": op, "obs": v}));
+                }
+                v
+            }
+            Err(e) => {
+                out.oracle_fail("node:error", "the node instance failed", json!({"op": op, "err": e}));
+                json!({"ping": false, "fetched": false, "_err": e})
+            }
+        }
+    }
+}
+
 impl Prop for C10 {
     fn gen(&mut self, opts: &Opts) -> Vec<Value> {
         let mut rng = opts.rng();
@@ -1820,6 +2297,7 @@ impl Prop for C10 {
         gen_canon(&mut rng, n / 4, &mut ops);
         gen_consensus(&mut rng, n / 8, &mut ops);
         gen_votes(&mut rng, n / 8, &mut ops);
+        gen_store_and_node(&mut rng, n / 100, &mut ops);
         // certificates: add the model's view of the realised value (map in the real BTreeMap order)
         let nval = WEIGHTS.len();
         for op in ops.iter_mut() {
@@ -1876,6 +2354,8 @@ impl Prop for C10 {
             "cqc" => catch(|| self.exec_cqc(op)),
             "tqc" | "implied" => catch(|| self.exec_tqc(op)),
             "votes" => { let o = &mut *out; catch(|| self.exec_votes(op, o)) }
+            "bss" => catch(|| self.exec_bss(op)),
+            "node" => { let o = &mut *out; catch(|| self.exec_node(op, o)) }
             "replica" => { let o = &mut *out; catch(|| self.exec_replica(op, o)) }
             _ => Ok(json!({"bad_op": true})),
         };
